@@ -55,13 +55,14 @@ def d_bucket(d_rel):
     return str(int(np.clip(np.floor(np.log10(max(d_rel, 1e-30))), -4, 4)))
 
 
-def tolerance(cls, t_rel, d_rel):
+def tolerance(cls, t_rel, d_rel, near="surface"):
+    """envelope for an observer at distance t_rel*L from its nearest special set `near` and d_rel*L from the surface"""
     tab = tolerances().get(cls)
     if not tab:
         return 1e-6
-    a = tab.get("t", {}).get(t_bucket(t_rel), tab.get("default", 1e-6))
-    b = tab.get("d", {}).get(d_bucket(d_rel), tab.get("default", 1e-6))
-    return max(a, b, 1e-6)
+    if d_rel >= 3:
+        return max(tab.get("d", {}).get(d_bucket(d_rel), tab.get("default", 1e-6)), 1e-6)
+    return max(tab.get("t", {}).get(near, {}).get(t_bucket(t_rel), tab.get("default", 1e-6)), 1e-6)
 
 
 def budget(tier):
@@ -125,8 +126,15 @@ def run_case(case, ctx):
     glob = np.array([build.to_global(spec, p) for p in loc])
     S = build.field_scale(spec)
     dist = body.dist(loc) / body.L
-    tsp = geom.special_dist(body, loc) / body.L
+    tsp, tname = geom.special_dist(body, loc, with_name=True)
+    tsp = tsp / body.L
     inside = body.inside(loc) if body.kind == "magnet" else np.zeros(len(loc), dtype=bool)
+    # scopes of the open findings (known_findings.json): CylinderSegment close to its axis; TriangularMesh / Tetrahedron
+    # observers coplanar with two or more face planes (edge lines), where the mesh inside test is unreliable
+    raxis = (np.hypot(loc[:, 0], loc[:, 1]) / body.L) if isinstance(body, geom.CylSeg) else np.full(len(loc), np.inf)
+    from vf.props.c02 import _coplanar  # pylint: disable=import-outside-toplevel
+
+    coplanar = [_coplanar(body, p) for p in loc]
     rec_dir = os.environ.get("VERIF_C01_RECORD")
     for field, ref, eref, s_near in (("B", Bref, eB, S if cls not in ("Circle", "Polyline", "Dipole") else S * mu0),
                                      ("H", Href, eH, (S / mu0) if cls not in ("Circle", "Polyline", "Dipole") else S)):
@@ -171,15 +179,17 @@ def run_case(case, ctx):
                 ctx.label("oracle_inconclusive")
                 continue
             err = float(np.linalg.norm(lib_loc[i] - ref[i])) / scale
-            tol = float("inf") if os.environ.get("VERIF_C01_CALIB") else tolerance(cls, tsp[i], dist[i])
+            tol = float("inf") if os.environ.get("VERIF_C01_CALIB") else tolerance(cls, tsp[i], dist[i], tname[i])
             if rec_dir:
                 with open(os.path.join(rec_dir, f"rec_{os.getpid()}.jsonl"), "a", encoding="utf-8") as fh:
-                    fh.write(json.dumps({"cls": cls, "field": field, "region": reg, "t": float(tsp[i]), "d": float(dist[i]),
-                                         "err": err, "route": case["route"], "inside": bool(inside[i])}) + "\n")
+                    fh.write(json.dumps({"cls": cls, "field": field, "region": reg, "t": float(tsp[i]), "near": tname[i], "d": float(dist[i]),
+                                         "err": err, "route": case["route"], "inside": bool(inside[i]),
+                                         "raxis": float(min(raxis[i], 1e30)), "coplanar": coplanar[i]}) + "\n")
             if err > tol:
                 out.append(Violation(
                     {"sub": "field_differs_from_integral", "cls": cls, "region": reg, "field": field, "route": case["route"],
-                     "t_bucket": t_bucket(tsp[i]), "d_bucket": d_bucket(dist[i]), "magnitude": "O(1)" if err > 1e-2 else ("1e-4..1e-2" if err > 1e-4 else "small")},
+                     "t_bucket": t_bucket(tsp[i]), "near": tname[i], "d_bucket": d_bucket(dist[i]),
+                     "close_to_axis": bool(raxis[i] < 1e-3), "coplanar_face_planes": coplanar[i], "magnitude": "O(1)" if err > 1e-2 else ("1e-4..1e-2" if err > 1e-4 else "small")},
                     f"{cls} {field} at local {loc[i].tolist()} (region {reg}, d/L={dist[i]:.3g}, t/L={tsp[i]:.3g}, inside={bool(inside[i])}): "
                     f"library {lib_loc[i].tolist()} vs quadrature {ref[i].tolist()}: rel. deviation {err:.3g} > tolerance {tol:.3g} "
                     f"(oracle two-setting difference {eref[i] / scale:.1e})",
